@@ -725,7 +725,9 @@ class EnvSim:
                     " give different results: the outcome depends on "
                     "something other than its arguments' values",
                     differs=diff, action=op["a"])
-        if src in ("cur", "last"):
+        if src in ("cur", "last") or op.get("rebuilt"):
+            # (a rebuilt state is another object, possibly of another dtype:
+            # not "the same generative step")
             rkey = None
         else:
             rkey = (src, tuple(map(str, op["a"])), tuple(op["u"]))
